@@ -19,6 +19,7 @@ MUST_REJECT = {
     "comm_subst_shared": "C05", "reorder_shift_exploit": "C05", "comm_subst_independent": "C05", "inner_id_other": "C05", "omit_pred": "C05",
     "eq_independent_nonces": "C09", "eq_copy_response": "C09", "eq_unequal_shared_nonce": "C09", "eq_one_side_disclosed": "C09",
     "withhold_consistent": "C02", "extra_consistent": "C02",
+    "rev_other_element_shared": "C05", "rev_other_element_independent": "C05", "rev_tamper_sy": "C11",
     "venc_no_dec_part": "C10", "venc_subst_shared": "C10", "venc_subst_independent": "C10",
     "tamper_extend_minus_c": "C11", "tamper_extend_zero": "C11", "tamper_shorten": "C11",
     "tamper_resp": "C11", "tamper_resp_neg": "C11", "tamper_resp_swap": "C11", "tamper_e1": "C11", "tamper_e2": "C11", "tamper_e3": "C11",
@@ -45,6 +46,8 @@ def coq_schema(sch):
             out.append(f"SSig Zr {s['id']}%nat {coq_pk(s)} {nl(s['req'])}")
         elif s["k"] == "eq":
             out.append(f"SEq Zr {s['id']}%nat [" + ";".join(f"({r[0]}%nat,{r[1]}%nat)" for r in s["refs"]) + "]")
+        elif s["k"] == "rev":
+            out.append(f"SRev Zr {s['id']}%nat {s['ref']}%nat {s['claim']}%nat")
         elif s["k"] == "venc":
             out.append(f"SVenc Zr {s['id']}%nat {s['ref']}%nat {s['claim']}%nat (z {hz(s['gm'])}) (z {hz(s['ek'])}) {C.cbool(s['dec'])}")
         else:
@@ -64,6 +67,8 @@ def coq_proof(p):
         return f"PComm Zr {p['id']}%nat (z {hz(p['c'])}) (z {hz(p['bp'])})"
     if p["k"] == "venc":
         return f"PVenc Zr {p['id']}%nat (z {hz(p['c1'])}) (z {hz(p['c2'])}) (z {hz(p['bp'])}) {C.cbool(p['has'])}"
+    if p["k"] == "rev":
+        return f"PRev Zr {p['id']}%nat (z {hz(p['sy'])}) (z {hz(p['fin'])})"
     return f"POther Zr {p['id']}%nat"
 
 
@@ -80,9 +85,9 @@ def coq_case(r):
 CLAIM_POOL = ["h:Alice", "h:Bob", "n:41", "n:-7", "h:", "h:90210", "n:0", "h:Zoe"]
 
 
-def base_scenario(rng, suite, n_creds=1, n_claims=None, eq=False, comm=False, disclosed=None, venc=None):
+def base_scenario(rng, suite, n_creds=1, n_claims=None, eq=False, comm=False, disclosed=None, venc=None, rev=False, one_issuer=False):
     creds = []
-    n_issuers = rng.choice([1, n_creds]) if n_creds > 1 else 1
+    n_issuers = (1 if one_issuer else rng.choice([1, n_creds])) if n_creds > 1 else 1
     common_val = rng.choice(["h:Alice", "h:link", "n:5"])
     for ci in range(n_creds):
         n = n_claims or rng.randrange(3, 6)
@@ -119,6 +124,9 @@ def base_scenario(rng, suite, n_creds=1, n_claims=None, eq=False, comm=False, di
         if eq and rng.random() < 0.5:
             claim = 1
         stmts.append({"k": "comm", "id": "c0", "ref": "s0", "claim": claim})
+    if rev:
+        # revocation statement on the identifier (claim 0) of credential 0; the registry value is the issuer's current one
+        stmts.append({"k": "rev", "id": "r0", "ref": "s0", "claim": 0})
     if venc is not None:
         n = len(creds[0]["claims"])
         sig0 = next(x for x in stmts if x["k"] == "sig" and x["id"] == "s0")
